@@ -310,6 +310,15 @@ func cfbRunSession(tr *vk.Trace, s cfbSession, classes map[string]int) {
 	if rng.Intn(8) == 0 {
 		copy(iv, key) // Minecraft uses the shared secret as key and IV
 	}
+	// what the caller hands to the constructors: in a third of the sessions a prefix of a larger buffer (the IV the
+	// events and the specification use stays the private copy `iv`: a cipher must not depend on, or write to, the
+	// caller's slice after construction)
+	callerIV := append([]byte{}, iv...)
+	if rng.Intn(3) == 0 {
+		big := make([]byte, 16, 64+rng.Intn(64))
+		copy(big, iv)
+		callerIV = big
+	}
 	block, err := aes.NewCipher(key)
 	if err != nil {
 		panic(err)
@@ -325,7 +334,7 @@ func cfbRunSession(tr *vk.Trace, s cfbSession, classes map[string]int) {
 	input := msg
 	for leg := 0; leg < 2; leg++ {
 		tr.Add(map[string]any{"k": "reset", "dir": dir, "iv": ints(iv), "pair": leg == 1, "scn": s.ID, "keylen": len(key)})
-		stream := cfbNewStream(block, iv, dir)
+		stream := cfbNewStream(block, callerIV, dir)
 		hist := append([]byte{}, iv...) // IV ++ ciphertext so far (observed bytes only)
 		var output []byte
 		pos := 0
@@ -485,6 +494,9 @@ func cfbRunConnSession(tr *vk.Trace, s cfbSession, classes map[string]int) {
 	key := make([]byte, []int{16, 16, 24, 32}[rng.Intn(4)])
 	rng.Read(key)
 	iv := make([]byte, 16)
+	if rng.Intn(3) == 0 {
+		iv = make([]byte, 16, 64+rng.Intn(64)) // the shared secret as a prefix of a larger buffer
+	}
 	if rng.Intn(2) == 0 {
 		copy(iv, key)
 	} else {
